@@ -69,6 +69,18 @@ def frame_oracle(kind, ops, obs):
         stored = set() if kind == 'shared' or i == 0 else {e[0] for e in snaps[i - 1]}
         cur = sc.views(kind, snaps[i])
         k = op[0]
+        # every graph also seen through the PUBLIC listings: they agree with the stored content (so an operation addressed
+        # to another graph cannot change what a graph lists) - as long as no node was re-homed by rewriting GraphID
+        if 'p' in o and not rehomed and not sc.rehomes(op):
+            why = sc.probe_check(kind, snaps[i], o['p'], sc.GIDS[:3])
+            if why:
+                return 'step %d %s addressed to %s: %s' % (i, k, sc.target(op), why)
+        if k == 'upd_nodes' and o['r'][0] == 'ok' and not sc.rehomes(op) and not rehomed:
+            g = sc.SYM[op[1]]
+            miss = [n for n in cur.get(g, [[], []])[0] if sc.pget(n[1], sc.SYM[op[2]]) != sc.cv(op[3])]
+            if miss:
+                return 'step %d update_nodes_property(%s) on graph %s left %d of its nodes without the new value' % (
+                    i, op[2], op[1], len(miss))
         if k == 'refused':
             # an empty graph, a node without GraphID or mixed GraphIDs on a direct entry point: the importer must raise
             # before the storage is touched
@@ -169,6 +181,9 @@ class Hist(Stream):
                 # a store that CONTAINS cross-graph links (left by merge_nodes) as pre-state, then extract / clone /
                 # delete / import on either side: the merge steps themselves are not compared for isolation
                 out.append(sc.cross_link_scenario(rng, extra=rng.randrange(3, 12)))
+                continue
+            if rng.random() < 0.08:
+                out.append(sc.late_add_scenario(rng, extra=rng.randrange(0, 8)))
                 continue
             depth = rng.choice([8, 12, 16, 20, 25, 30])
             # merge_nodes is not among the operations C04 quantifies over (C05 covers it)
